@@ -9,7 +9,7 @@ D4 stamps: every non-registration datagram refreshes last_received; the delivery
    SRTLA ACK and an answered keepalive (zero only in the link reset);
 D5 processing an arbitrary datagram never panics (E5).
 """
-from ..ctx import is_awaited_result_of, CONN, is_call, is_field, is_iter_next, result_arms, sname
+from ..ctx import is_awaited_result_of, CONN, is_call, is_field, is_iter_next, result_arms, sname, some_of
 from ..expr import show, strip_old, walk
 from ..pathcond import PathA, calls_to, field_stores
 
@@ -231,11 +231,11 @@ def d4_stamps(ctx, rule="D4"):
         if g.stable == CONN + "::reset_core_state":
             ctx.chk.ob(rule, "the link reset clears delivery proof", v == ("const", 0, "u64"), show(v), key="%s:proof-reset" % rule, loc=a.loc)
         elif g.stable == CONN + "::handle_srtla_ack_specific":
-            found = gpa.find(lambda x: is_call(x, name_contains="Option::<T>::is_some") and is_call(x[2][0], name_contains="HashMap::<K, V, S, A>::remove"))
+            found = some_of(gpa, lambda x: is_call(x, name_contains="HashMap::<K, V, S, A>::remove"))
             ok = bool(found) and gpa.entails(pc, found[0][1]) and v == ("param", 4)
             ctx.chk.ob(rule, "an SRTLA ACK counts as delivery proof only if this link held the packet", ok, "PC = %s" % gpa.show(pc), key="%s:proof-earned-ack" % rule, loc=a.loc)
         elif g.stable == PUP:
-            ka = gpa.find(lambda x: is_call(x, name_contains="Option::<T>::is_some") and is_call(x[2][0], name_contains="handle_keepalive_response"))
+            ka = some_of(gpa, lambda x: is_call(x, name_contains="handle_keepalive_response"))
             okk = bool(ka) and gpa.entails(pc, ka[0][1])
             ptv = ("field", ("as", pt, "Some"), "core::option::Option", "0")
             iska = type_is(gpa, 0x9000)
